@@ -32,6 +32,9 @@ pub mod prelude;
 #[cfg(test)]
 pub mod test_util;
 mod util;
+#[cfg(feature = "verif-hooks")]
+#[allow(missing_docs)]
+pub mod verif_hooks;
 pub mod welcomes;
 
 use self::callback::{MdkCallback, RollbackInfo};
